@@ -801,12 +801,29 @@ impl MdkStorageProvider for MdkMemoryStorage {
         name: &str,
     ) -> Result<(), MdkStorageError> {
         let key = (group_id.clone(), name.to_string());
-        // Remove and restore the snapshot (consume it)
-        let snapshot = self
-            .group_snapshots
-            .write()
-            .remove(&key)
-            .ok_or_else(|| MdkStorageError::NotFound("Snapshot not found".to_string()))?;
+        let snapshot = {
+            let mut snapshots = self.group_snapshots.write();
+            let snapshot = snapshots
+                .get(&key)
+                .ok_or_else(|| MdkStorageError::NotFound("Snapshot not found".to_string()))?;
+            // Restoring must not hand this group a nostr_group_id that another group took
+            // since the snapshot (save_group refuses that too; SQLite's unique index refuses
+            // the rollback): the nostr-id index would route the id to the wrong group.
+            if let Some(group) = &snapshot.group {
+                let inner = self.inner.read();
+                if let Some(holder) = inner.groups_by_nostr_id_cache.peek(&group.nostr_group_id)
+                    && holder.mls_group_id != *group_id
+                {
+                    return Err(MdkStorageError::Database(
+                        "nostr_group_id already in use by another group".to_string(),
+                    ));
+                }
+            }
+            // Remove and restore the snapshot (consume it)
+            snapshots
+                .remove(&key)
+                .ok_or_else(|| MdkStorageError::NotFound("Snapshot not found".to_string()))?
+        };
         self.restore_group_scoped_snapshot(snapshot);
         Ok(())
     }
